@@ -61,14 +61,24 @@ def message_term(ctx: Ctx, f: FuncInfo, e: ast.expr):
     return tuple(out)
 
 
-def _helper(h: FuncInfo) -> bool:
-    return not h.name.lstrip("_").startswith("handle")
-
-
 def handler_code(ctx: Ctx) -> list[FuncInfo]:
     """Handler and wrapper definitions, each with its statement-level helper calls written out (an extracted
-    helper that sends is judged as part of the handler that calls it)."""
-    return [ctx.inl(f, _helper) for f in tables.all_handler_defs(ctx, include_wrappers=True)]
+    helper that sends is judged as part of the handler that calls it).  The release of parked commands (the flush,
+    whatever it is called and wherever it lives) is a writer of its own and is never written out into the wake
+    handlers."""
+    cached = getattr(ctx, "_c06_handler_code", None)
+    if cached is not None:
+        return cached
+    flush = sb.flush_functions(ctx)
+    flush_fqs = {f.fq for f in flush}
+    helper = ctx.__dict__.setdefault("_c06_helper", lambda h: not h.name.startswith("handle_") and h.fq not in flush_fqs)
+    defs = list(tables.all_handler_defs(ctx, include_wrappers=True))
+    for f in flush:
+        if f not in defs:
+            defs.append(f)  # a flush that moved out of the handler class
+    out = [ctx.inl(f, helper) for f in defs]
+    ctx._c06_handler_code = out
+    return out
 
 
 def send_sites(ctx: Ctx):
@@ -331,10 +341,17 @@ def _evalcond(ctx: Ctx, f: FuncInfo, e: ast.expr, env: dict):
         a = _evalcond(ctx, f, e.left, env)
         b = _evalcond(ctx, f, e.comparators[0], env)
         op = e.ops[0]
-        if isinstance(op, ast.Is):
-            return a is b
-        if isinstance(op, ast.IsNot):
-            return a is not b
+        if isinstance(op, (ast.Is, ast.IsNot)):
+            # identity: decided for the singletons None / True / False only.  A field of a decoded message is a
+            # plain int / str, never the enum member object, so `message.command is Command.internal` is False
+            # for every received message whatever the numbers are.
+            if a is None or b is None or isinstance(a, bool) or isinstance(b, bool):
+                r = a is b
+            elif _is_member_expr(ctx, f, e.left) != _is_member_expr(ctx, f, e.comparators[0]):
+                r = False
+            else:
+                raise AnalysisError(f"WRAP-COND: identity test `{t}` between values that are not singletons")
+            return r if isinstance(op, ast.Is) else not r
         if isinstance(op, ast.Eq):
             return a == b
         if isinstance(op, ast.NotEq):
@@ -360,10 +377,61 @@ def _evalcond(ctx: Ctx, f: FuncInfo, e: ast.expr, env: dict):
                     if k == at or k.startswith(at + "."):
                         env2[p + k[len(at):]] = v
             return _evalbody(ctx, h, h.node.body, env2)
+    if isinstance(e, ast.Name):
+        d = _single_local_def(f, e.id)
+        if d is not None:
+            return _evalcond(ctx, f, d, env)
+    if isinstance(e, ast.NamedExpr) and isinstance(e.target, ast.Name):
+        return _evalcond(ctx, f, e.value, env)
+    if isinstance(e, ast.IfExp):
+        return _evalcond(ctx, f, e.body if _evalcond(ctx, f, e.test, env) else e.orelse, env)
     try:
         return ctx.folder.plain(ctx.folder.fold(f.module, e))
     except Exception as err:  # noqa: BLE001
         raise AnalysisError(f"WRAP-COND: cannot evaluate `{t}`: {err}") from err
+
+
+def _single_local_def(f: FuncInfo, name: str):
+    """The value expression of a local that is bound exactly once in the function (plain / annotated / walrus)."""
+    if name in f.positional_params:
+        return None
+    defs = []
+    for n in ast.walk(f.node):
+        if isinstance(n, ast.Assign):
+            for tg in n.targets:
+                for x in ast.walk(tg):
+                    if isinstance(x, ast.Name) and x.id == name:
+                        defs.append(n.value if tg is x or (isinstance(tg, ast.Name)) else None)
+        elif isinstance(n, (ast.AnnAssign, ast.AugAssign)) and isinstance(n.target, ast.Name) and n.target.id == name:
+            defs.append(n.value if isinstance(n, ast.AnnAssign) else None)
+        elif isinstance(n, ast.NamedExpr) and isinstance(n.target, ast.Name) and n.target.id == name:
+            defs.append(n.value)
+        elif isinstance(n, (ast.For, ast.AsyncFor, ast.comprehension)):
+            if any(isinstance(x, ast.Name) and x.id == name for x in ast.walk(n.target)):
+                defs.append(None)
+        elif isinstance(n, (ast.With, ast.AsyncWith)):
+            for it in n.items:
+                if it.optional_vars is not None and any(isinstance(x, ast.Name) and x.id == name for x in ast.walk(it.optional_vars)):
+                    defs.append(None)
+        elif isinstance(n, ast.ExceptHandler) and n.name == name:
+            defs.append(None)
+    if len(defs) == 1 and defs[0] is not None:
+        return defs[0]
+    return None
+
+
+def _is_member_expr(ctx: Ctx, f: FuncInfo, e: ast.expr) -> bool:
+    """True when the expression folds to an enum member object (as opposed to a plain number / text)."""
+    from ..model import EnumVal
+
+    if isinstance(e, ast.Name):
+        d = _single_local_def(f, e.id)
+        if d is not None:
+            return _is_member_expr(ctx, f, d)
+    try:
+        return isinstance(ctx.folder.fold(f.module, e), EnumVal)
+    except Exception:  # noqa: BLE001
+        return False
 
 
 def dispatch1(ctx: Ctx, chk) -> None:
